@@ -205,6 +205,7 @@ impl Trace {
         ok: F,
     ) -> Result<(), (usize, String)> {
         let mut clean: Vec<bool> = vec![true];
+        let mut last_refusal: Option<(usize, String)> = None;
         let n_steps = match (self.unexplained_at, self.saturated_at) {
             (Some(k), _) => k,
             (None, Some(k)) => k + 1,
@@ -227,14 +228,26 @@ impl Trace {
                     }
                 }
             }
+            if let Some(w) = &why {
+                last_refusal = Some((k, w.clone()));
+            }
             if !next.iter().any(|b| *b) {
-                return Err((k, why.unwrap_or_else(|| "no explanation".into())));
+                let w = match (&why, &last_refusal) {
+                    (Some(w), _) => w.clone(),
+                    (None, Some((k0, w))) => format!("{} (the only other explanation was refuted at call {})", w, k0),
+                    _ => "no explanation".into(),
+                };
+                return Err((k, w));
             }
             clean = next;
         }
         if self.complete() {
             if !clean.iter().zip(self.final_ok.iter()).any(|(a, b)| *a && *b) {
-                return Err((self.steps.len(), "returned state is not a state any violation-free explanation ends in".into()));
+                let w = match &last_refusal {
+                    Some((k0, w)) => format!("{} (at call {}; the returned state is only reachable through it)", w, k0),
+                    None => "returned state is not a state any violation-free explanation ends in".into(),
+                };
+                return Err((self.steps.len(), w));
             }
         }
         Ok(())
